@@ -40,7 +40,13 @@ Shapes == <<
   [s |-> "[u=*2]",       nm |-> "u",        val |-> "*2",   vt |-> "raw",  b |-> FALSE, im |-> FALSE],
   [s |-> "[!g.]",        nm |-> "g",        val |-> NONE,   vt |-> "raw",  b |-> TRUE,  im |-> TRUE ],
   [s |-> "[!g.=x]",      nm |-> "g",        val |-> "x",    vt |-> "raw",  b |-> TRUE,  im |-> TRUE ],
-  [s |-> "[h.=y]",       nm |-> "h",        val |-> "y",    vt |-> "raw",  b |-> TRUE,  im |-> FALSE] >>
+  [s |-> "[h.=y]",       nm |-> "h",        val |-> "y",    vt |-> "raw",  b |-> TRUE,  im |-> FALSE],
+  [s |-> "[k=1 t=z]",    nm |-> "k",        val |-> "1",    vt |-> "raw",  b |-> FALSE, im |-> FALSE],
+  [s |-> "[u k=\"2\"]",   nm |-> "u",        val |-> NONE,   vt |-> "raw",  b |-> FALSE, im |-> FALSE] >>
+(* a set may hold a second attribute: index of the shape -> the second attribute of that set *)
+Second(k) == IF k = 26 THEN <<[s |-> "", nm |-> "t", val |-> "z", vt |-> "raw", b |-> FALSE, im |-> FALSE]>>
+             ELSE IF k = 27 THEN <<[s |-> "", nm |-> "k", val |-> "2", vt |-> "dq", b |-> FALSE, im |-> FALSE]>>
+             ELSE <<>>
 
 VARIABLES abbr, mentions, merged, reverse
 vars == <<abbr, mentions, merged, reverse>>
@@ -62,13 +68,15 @@ Mention == /\ Len(mentions) < MaxMentions
            /\ \E k \in ShapeIdx :
                 /\ abbr' = abbr \o Shapes[k].s
                 /\ mentions' = Append(mentions, k)
-                /\ merged' = MergeStep(merged, Shapes[k])
+                /\ merged' = IF Second(k) = <<>> THEN MergeStep(merged, Shapes[k]) ELSE MergeStep(MergeStep(merged, Shapes[k]), Second(k)[1])
            /\ UNCHANGED reverse
 Next == Mention
 Spec == Init /\ [][Next]_vars
 
 (* --------------------------------------------------------------- contract *)
-Ms == [i \in 1..Len(mentions) |-> Shapes[mentions[i]]]
+RECURSIVE AllMentions(_)
+AllMentions(ms) == IF ms = <<>> THEN <<>> ELSE <<Shapes[Head(ms)]>> \o Second(Head(ms)) \o AllMentions(Tail(ms))
+Ms == AllMentions(mentions)
 NamesInOrder ==           \* names by first mention
     LET RECURSIVE F(_, _)
         F(i, acc) == IF i > Len(Ms) THEN acc
@@ -102,7 +110,7 @@ Booleans == {"contenteditable", "seamless", "async", "autofocus", "autoplay", "c
 MapName(syntax, nm) == IF syntax = "jsx" THEN (IF nm = "class" THEN "className" ELSE IF nm = "for" THEN "htmlFor" ELSE nm) ELSE nm
 UpperOf(s) == CASE s = "id" -> "ID" [] s = "class" -> "CLASS" [] s = "className" -> "CLASSNAME" [] s = "t" -> "T" [] s = "d" -> "D"
                 [] s = "m" -> "M" [] s = "disabled" -> "DISABLED" [] s = "u" -> "U" [] s = "e" -> "E" [] s = "for" -> "FOR"
-                [] s = "htmlFor" -> "HTMLFOR" [] s = "g" -> "G" [] s = "h" -> "H"
+                [] s = "htmlFor" -> "HTMLFOR" [] s = "g" -> "G" [] s = "h" -> "H" [] s = "k" -> "K"
 EmitOne(a, row) ==       \* <<>> when the attribute is dropped, else << [n, q, v] >>; q = NONE: printed without "=" part
     LET hasVal == a.val # NONE /\ a.val # ""
         nm0 == MapName(row.syntax, a.nm)
